@@ -11,12 +11,14 @@ package c38
 import (
 	"context"
 	"fmt"
+	"net/url"
 	"os"
 	"runtime"
 	"sort"
 	"strings"
 	"sync"
 	"sync/atomic"
+	"syscall"
 	"time"
 
 	"github.com/lavanet/lava/v5/protocol/chainlib"
@@ -90,8 +92,51 @@ type target struct {
 	spec    string
 	cons    chainlib.ChainParser
 	prov    chainlib.ChainParser
-	latests []uint64 // consumer-side latest block values
 	closers []func()
+	// REST only: the parser's api table split into one-entry tables (see restCandidates)
+	restSingles []map[chainlib.ApiKey]chainlib.ApiContainer
+}
+
+// cmode: how the consumer parses - its latest block and the extension directive of the user
+// ("lava-extension" header: a list of extensions to add, or "none")
+type cmode struct {
+	latest uint64
+	add    []string
+	none   bool
+}
+
+func (m cmode) String() string {
+	return fmt.Sprintf("latest=%d add=%v none=%v", m.latest, m.add, m.none)
+}
+
+// as getExtensionsFromDirectiveHeaders builds it
+func (m cmode) info() extensionslib.ExtensionInfo {
+	switch {
+	case m.none:
+		return extensionslib.ExtensionInfo{LatestBlock: m.latest, ExtensionOverride: []string{}}
+	case len(m.add) > 0:
+		return extensionslib.ExtensionInfo{LatestBlock: m.latest, AdditionalExtensions: m.add}
+	}
+	return extensionslib.ExtensionInfo{LatestBlock: m.latest}
+}
+
+var (
+	latestWide  = []uint64{0, 100, 1000, 20000000}
+	modeDefault = []cmode{{latest: 1000}}
+	modeRest    = []cmode{{latest: 1000}, {latest: 0}}
+	modeWide    = func() (out []cmode) {
+		for _, l := range latestWide {
+			out = append(out, cmode{latest: l}, cmode{latest: l, add: []string{"archive"}}, cmode{latest: l, none: true})
+		}
+		return out
+	}()
+)
+
+func wideModes(kind string) []cmode {
+	if kind == spectypes.APIInterfaceRest {
+		return modeRest // milliseconds per parse, and the REST collections have no extensions
+	}
+	return modeWide
 }
 
 var specCache = map[string]spectypes.Spec{}
@@ -145,7 +190,7 @@ func newTarget(specIndex, kind string) (*target, error) {
 	if err != nil {
 		return nil, err
 	}
-	t := &target{id: kind + ":" + specIndex, kind: kind, spec: specIndex, latests: []uint64{1000}}
+	t := &target{id: kind + ":" + specIndex, kind: kind, spec: specIndex}
 	if kind == spectypes.APIInterfaceGrpc {
 		// the gRPC parser decodes protobuf bodies through a descriptor registry that is only set up
 		// by the chain router (reflection against the node) - use the repository's own mock set-up
@@ -174,7 +219,37 @@ func newTarget(specIndex, kind string) (*target, error) {
 	if t.prov, err = newParser(spec, kind); err != nil {
 		return nil, err
 	}
+	if kind == spectypes.APIInterfaceRest {
+		for k, v := range chainlib.VerifC38RestServerApis(t.cons) {
+			t.restSingles = append(t.restSingles, map[chainlib.ApiKey]chainlib.ApiContainer{k: v})
+		}
+	}
 	return t, nil
+}
+
+// restCandidates: the REST matcher (matchSpecApiByName) ranges over a Go map and returns the first
+// pattern that matches, so every matching entry is a possible result (each is first in some
+// iteration order, and Go randomises the order per call). The set of possible results is obtained
+// from the real matcher by offering it each table entry alone.
+func restCandidates(t *target, rawURL, conn string) []string {
+	u, err := url.Parse(rawURL)
+	if err != nil {
+		return nil
+	}
+	seen := map[string]bool{}
+	var out []string
+	for _, m := range t.restSingles {
+		if ac, ok := chainlib.VerifC38MatchSpecApiByName(u.Path, conn, m); ok {
+			api := ac.VerifC38Api()
+			d := fmt.Sprintf("%s (cu %d, block parser %s%v)", api.Name, api.ComputeUnits, api.BlockParsing.ParserFunc, api.BlockParsing.ParserArg)
+			if !seen[d] {
+				seen[d] = true
+				out = append(out, d)
+			}
+		}
+	}
+	sort.Strings(out)
+	return out
 }
 
 func bgctx() context.Context { return context.Background() }
@@ -296,12 +371,14 @@ type stats struct {
 	perTarget   map[string]int64
 	perTargetOK map[string]int64
 	famNanos    map[string]int64
+	restAmbiguous map[string]struct{}
+	restObserved  int64
 	viol        []ev.Violation
 	samples     []string
 }
 
 func newStats() *stats {
-	return &stats{outcomes: map[string]struct{}{}, errClasses: map[string]struct{}{}, perTarget: map[string]int64{}, perTargetOK: map[string]int64{}, famNanos: map[string]int64{}}
+	return &stats{outcomes: map[string]struct{}{}, errClasses: map[string]struct{}{}, perTarget: map[string]int64{}, perTargetOK: map[string]int64{}, famNanos: map[string]int64{}, restAmbiguous: map[string]struct{}{}}
 }
 
 func (s *stats) merge(o *stats) {
@@ -327,6 +404,10 @@ func (s *stats) merge(o *stats) {
 	for k, v := range o.famNanos {
 		s.famNanos[k] += v
 	}
+	for k := range o.restAmbiguous {
+		s.restAmbiguous[k] = struct{}{}
+	}
+	s.restObserved += o.restObserved
 	s.viol = append(s.viol, o.viol...)
 	if len(s.samples) < 40 {
 		s.samples = append(s.samples, o.samples...)
@@ -353,16 +434,40 @@ func confirmPanic(cp chainlib.ChainParser, in input, ext extensionslib.Extension
 	return true
 }
 
-func evaluate(t *target, in input, s *stats) {
+func extDiff(c, p []string) string {
+	cs, ps := map[string]bool{}, map[string]bool{}
+	for _, e := range c {
+		cs[e] = true
+	}
+	for _, e := range p {
+		ps[e] = true
+	}
+	var d []string
+	for _, e := range p {
+		if !cs[e] {
+			d = append(d, "provider-adds-"+e)
+		}
+	}
+	for _, e := range c {
+		if !ps[e] {
+			d = append(d, "provider-drops-"+e)
+		}
+	}
+	sort.Strings(d)
+	return strings.Join(d, ",")
+}
+
+func evaluate(t *target, in input, modes []cmode, s *stats) {
 	s.evals++
 	s.perTarget[t.id]++
-	for _, latest := range t.latests {
-		cext := extensionslib.ExtensionInfo{LatestBlock: latest}
+	for li, mode := range modes {
+		latest := mode.String()
+		cext := mode.info()
 		c := parseOnce(t.cons, in, cext)
 		s.parses++
 		if c.panicF != "" {
 			if confirmPanic(t.cons, in, cext, c) {
-				s.violate(t, "panic:"+t.kind+":"+c.panicF, fmt.Sprintf("consumer-side ParseMsg panics (%s) in %s on %s", c.panicV, c.panicF, in), in, map[string]interface{}{"side": "consumer", "latest_block": latest})
+				s.violate(t, "panic:"+t.kind+":"+c.panicF, fmt.Sprintf("consumer-side ParseMsg panics (%s) in %s on %s", c.panicV, c.panicF, in), in, map[string]interface{}{"side": "consumer", "consumer_mode": latest})
 			}
 			continue
 		}
@@ -383,8 +488,16 @@ func evaluate(t *target, in input, s *stats) {
 		}
 		s.consOK++
 		s.perTargetOK[t.id]++
+		ambiguous := false
+		if t.kind == spectypes.APIInterfaceRest && li == 0 {
+			if cands := restCandidates(t, in.url, in.conn); len(cands) > 1 {
+				ambiguous = true
+				s.restAmbiguous[strings.Join(cands, " | ")] = struct{}{}
+				s.violate(t, "disagree:rest:api:ambiguous-pattern-match", fmt.Sprintf("REST url %q (%s) matches %d api patterns of the spec: %s; matchSpecApiByName returns whichever entry its map iteration visits first, so the consumer and the provider resolve the same request to different APIs", in.url, in.conn, len(cands), strings.Join(cands, " | ")), in, map[string]interface{}{"candidates": cands})
+			}
+		}
 		if c.bad != "" {
-			s.violate(t, "unsupported-on-success:"+t.kind+":"+strings.ReplaceAll(c.bad, " ", "-"), fmt.Sprintf("consumer parse succeeded but %s (api %q cu %d) on %s", c.bad, c.name, c.cu, in), in, map[string]interface{}{"side": "consumer", "latest_block": latest})
+			s.violate(t, "unsupported-on-success:"+t.kind+":"+strings.ReplaceAll(c.bad, " ", "-"), fmt.Sprintf("consumer parse succeeded but %s (api %q cu %d) on %s", c.bad, c.name, c.cu, in), in, map[string]interface{}{"side": "consumer", "consumer_mode": latest})
 		}
 		// provider side, honouring the extensions the consumer chose and the headers it forwards
 		override := c.exts
@@ -396,7 +509,7 @@ func evaluate(t *target, in input, s *stats) {
 		pext := extensionslib.ExtensionInfo{LatestBlock: 0, ExtensionOverride: override}
 		p := parseOnce(t.prov, pin, pext)
 		s.parses++
-		extra := map[string]interface{}{"latest_block": latest, "consumer": fmt.Sprintf("api=%q cu=%d addon=%q block=%d extensions=%v", c.name, c.cu, c.addon, c.block, c.exts),
+		extra := map[string]interface{}{"consumer_mode": latest, "consumer": fmt.Sprintf("api=%q cu=%d addon=%q block=%d extensions=%v", c.name, c.cu, c.addon, c.block, c.exts),
 			"provider": fmt.Sprintf("ok=%v err=%q api=%q cu=%d addon=%q block=%d extensions=%v", p.ok, p.err, p.name, p.cu, p.addon, p.block, p.exts), "forwarded_metadata": fmt.Sprint(c.hdrs)}
 		if p.panicF != "" {
 			if confirmPanic(t.prov, pin, pext, p) {
@@ -427,8 +540,16 @@ func evaluate(t *target, in input, s *stats) {
 		case c.block != p.block:
 			field = "requested-block"
 		}
+		if field == "api" && t.kind == spectypes.APIInterfaceRest && (ambiguous || len(restCandidates(t, in.url, in.conn)) > 1) {
+			s.restObserved++ // the ambiguity really produced different answers in this run
+			field = ""
+		}
 		if field != "" {
-			s.violate(t, "disagree:"+t.kind+":"+field+":"+apiClass(c.name), fmt.Sprintf("consumer and provider disagree on %s for %s: consumer{%s} provider{%s}", field, in, extra["consumer"], extra["provider"]), in, extra)
+			class := extDiff(c.exts, p.exts)
+			if class == "" {
+				class = apiClass(c.name)
+			}
+			s.violate(t, "disagree:"+t.kind+":"+field+":"+class, fmt.Sprintf("consumer and provider disagree on %s for %s: consumer{%s} provider{%s}", field, in, extra["consumer"], extra["provider"]), in, extra)
 		}
 		if len(s.samples) < 3 && (s.compared%977 == 1) {
 			s.samples = append(s.samples, fmt.Sprintf("%s %s => api=%q cu=%d addon=%q block=%d ext=%v (both sides)", t.id, in, c.name, c.cu, c.addon, c.block, c.exts))
@@ -440,10 +561,18 @@ func evaluate(t *target, in input, s *stats) {
 // enumeration families
 
 type family struct {
-	name string
-	t    *target
-	n    int64
-	at   func(i int64) input
+	name    string
+	t       *target
+	n       int64
+	at      func(i int64) input
+	modes []cmode // consumer-side modes (default modeDefault)
+}
+
+func (f *family) lat() []cmode {
+	if f.modes != nil {
+		return f.modes
+	}
+	return modeDefault
 }
 
 type chunk struct {
@@ -466,23 +595,51 @@ type suspect struct {
 
 // runFamilies shards all chunks over `workers` goroutines with a hang watchdog.
 func runFamilies(fams []*family, deadline time.Time) (*stats, bool, []suspect) {
-	var chunks []chunk
+	// slow parsers (REST compiles one regexp per api and request; gRPC asks the reflection server)
+	// get small chunks and are scheduled first so that they are spread over all workers
+	var chunks, fast []chunk
 	for _, f := range fams {
-		for lo := int64(0); lo < f.n; lo += chunkSize {
-			hi := lo + chunkSize
+		size := int64(chunkSize)
+		slow := f.t.kind == spectypes.APIInterfaceRest || f.t.kind == spectypes.APIInterfaceGrpc
+		if slow {
+			size = 8
+		}
+		for lo := int64(0); lo < f.n; lo += size {
+			hi := lo + size
 			if hi > f.n {
 				hi = f.n
 			}
-			chunks = append(chunks, chunk{f, lo, hi})
+			if slow {
+				chunks = append(chunks, chunk{f, lo, hi})
+			} else {
+				fast = append(fast, chunk{f, lo, hi})
+			}
 		}
 	}
-	// interleave families so that slow and fast ones are spread over the workers
+	// interleave: one slow chunk after every k fast ones
+	slowChunks := chunks
+	chunks = nil
+	k := 1
+	if len(slowChunks) > 0 && len(fast) > len(slowChunks) {
+		k = len(fast) / len(slowChunks)
+	}
+	for len(slowChunks) > 0 || len(fast) > 0 {
+		if len(slowChunks) > 0 {
+			chunks = append(chunks, slowChunks[0])
+			slowChunks = slowChunks[1:]
+		}
+		for j := 0; j < k && len(fast) > 0; j++ {
+			chunks = append(chunks, fast[0])
+			fast = fast[1:]
+		}
+	}
 	var next atomic.Int64
 	var mu sync.Mutex
 	total := newStats()
 	var suspects []suspect
 	skip := map[string]bool{}
 	var redo []chunk
+	var hasSkips atomic.Bool
 	exhaustive := atomic.Bool{}
 	exhaustive.Store(true)
 	var wg sync.WaitGroup
@@ -518,16 +675,22 @@ func runFamilies(fams []*family, deadline time.Time) (*stats, bool, []suspect) {
 			local := newStats()
 			t0 := time.Now()
 			for i := ck.lo; i < ck.hi; i++ {
-				mu.Lock()
-				sk := len(skip) > 0 && skip[fmt.Sprintf("%s#%d", ck.f.name, i)]
-				mu.Unlock()
-				if sk {
-					continue
+				if hasSkips.Load() {
+					mu.Lock()
+					sk := skip[fmt.Sprintf("%s#%d", ck.f.name, i)]
+					mu.Unlock()
+					if sk {
+						continue
+					}
+				}
+				if (i-ck.lo)%64 == 63 && time.Now().After(deadline) {
+					exhaustive.Store(false)
+					return // the unfinished chunk is not counted
 				}
 				in := ck.f.at(i)
 				ws.cur.Store(i)
 				ws.started.Store(time.Now().UnixNano())
-				evaluate(ck.f.t, in, local)
+				evaluate(ck.f.t, in, ck.f.lat(), local)
 				ws.started.Store(0)
 				if ws.dead.Load() {
 					return // abandoned by the watchdog: its chunk is redone by a replacement
@@ -575,6 +738,7 @@ loop:
 					mu.Lock()
 					suspects = append(suspects, suspect{ck.f, i})
 					skip[fmt.Sprintf("%s#%d", ck.f.name, i)] = true
+					hasSkips.Store(true)
 					redo = append(redo, ck)
 					mu.Unlock()
 					spawn()
@@ -701,10 +865,12 @@ func applyOp(tok string, op int, alphabet []string, open, close string) string {
 	}
 }
 
-func mutFamilies(name string, t *target, toks []string, alphabet []string, open, close string, build func(s string) input, double bool) []*family {
+// mutFamilies: every 1-token mutation with the full alphabet (evaluated with the wide set of consumer
+// latest blocks) and, when alpha2 != nil, every 2-token mutation with replacement tokens from alpha2.
+func mutFamilies(name string, t *target, toks []string, alphabet, alpha2 []string, open, close string, build func(s string) input) []*family {
 	n := int64(len(toks))
 	M := int64(len(alphabet) + 3)
-	fams := []*family{{name: name + "/mut1", t: t, n: n * M, at: func(i int64) input {
+	fams := []*family{{name: name + "/mut1", t: t, n: n * M, modes: wideModes(t.kind), at: func(i int64) input {
 		p, op := i/M, int(i%M)
 		var sb strings.Builder
 		for k, tk := range toks {
@@ -716,7 +882,8 @@ func mutFamilies(name string, t *target, toks []string, alphabet []string, open,
 		}
 		return build(sb.String())
 	}}}
-	if double && n >= 2 {
+	if alpha2 != nil && n >= 2 {
+		M2 := int64(len(alpha2) + 3)
 		pairs := n * (n - 1) / 2
 		// pair index -> (p,q), p<q
 		type pq struct{ p, q int }
@@ -726,17 +893,17 @@ func mutFamilies(name string, t *target, toks []string, alphabet []string, open,
 				tab = append(tab, pq{p, q})
 			}
 		}
-		fams = append(fams, &family{name: name + "/mut2", t: t, n: pairs * M * M, at: func(i int64) input {
-			pr := tab[i/(M*M)]
-			r := i % (M * M)
-			op1, op2 := int(r/M), int(r%M)
+		fams = append(fams, &family{name: name + "/mut2", t: t, n: pairs * M2 * M2, at: func(i int64) input {
+			pr := tab[i/(M2*M2)]
+			r := i % (M2 * M2)
+			op1, op2 := int(r/M2), int(r%M2)
 			var sb strings.Builder
 			for k, tk := range toks {
 				switch k {
 				case pr.p:
-					sb.WriteString(applyOp(tk, op1, alphabet, open, close))
+					sb.WriteString(applyOp(tk, op1, alpha2, open, close))
 				case pr.q:
-					sb.WriteString(applyOp(tk, op2, alphabet, open, close))
+					sb.WriteString(applyOp(tk, op2, alpha2, open, close))
 				default:
 					sb.WriteString(tk)
 				}
@@ -746,6 +913,12 @@ func mutFamilies(name string, t *target, toks []string, alphabet []string, open,
 	}
 	return fams
 }
+
+// reduced replacement alphabets for 2-token mutations of long or slow (REST) requests
+var (
+	jsonAlphabetSmall = []string{"{", "]", `"latest"`, `"0x1"`, "-1", "1e400", "null", `"\u0000"`}
+	urlAlphabetSmall  = []string{"/", "?", "latest", "17", "%zz", "..", " ", "-1"}
+)
 
 // byte-level mutations for protobuf bodies
 var byteAlphabet = []string{"\x00", "\x08", "\x7f", "\x80", "\xff", "\x0a", "\x12"}
@@ -801,6 +974,8 @@ func corpus() []corpusItem {
 		j("ETH1", `{"jsonrpc":"2.0","id":1,"method":"eth_blockNumber","params":[]}`),
 		j("ETH1", `{"jsonrpc":"2.0","id":1,"method":"eth_chainId"}`),
 		j("ETH1", `{"jsonrpc":"2.0","id":1,"method":"eth_getBalance","params":["`+addr20+`","latest"]}`),
+		j("ETH1", `{"jsonrpc":"2.0","id":1,"method":"eth_getBalance","params":["`+addr20+`"]}`),
+		j("ETH1", `{"jsonrpc":"2.0","id":1,"method":"eth_getBlockByNumber","params":[]}`),
 		j("ETH1", `{"jsonrpc":"2.0","id":"a","method":"eth_getBalance","params":["`+addr20+`","0x10"]}`),
 		j("ETH1", `{"jsonrpc":"2.0","id":1,"method":"eth_getBalance","params":["`+addr20+`","0x3e0"]}`),
 		j("ETH1", `{"jsonrpc":"2.0","id":1,"method":"eth_getBlockByNumber","params":["0x3e6",true]}`),
@@ -820,6 +995,15 @@ func corpus() []corpusItem {
 		j("ETH1", `[{"jsonrpc":"2.0","id":1,"method":"eth_chainId","params":[]},{"jsonrpc":"2.0","id":2,"method":"eth_getBalance","params":["`+addr20+`","0x5"]},{"jsonrpc":"2.0","id":3,"method":"eth_blockNumber"}]`),
 		j("ETH1", `[{"jsonrpc":"2.0","id":1,"method":"eth_getBlockByNumber","params":["0x3e0",false]}]`),
 		j("ETH1", `[{"jsonrpc":"2.0","id":1,"method":"debug_traceCall","params":[{},"latest"]},{"jsonrpc":"2.0","id":2,"method":"eth_call","params":[{},"0x3e0"]}]`),
+		// --- JSON-RPC of other families: generic (jq) parsers, dictionary-or-ordered, internal paths
+		j("NEAR", `{"jsonrpc":"2.0","id":1,"method":"block","params":{"finality":"final"}}`),
+		j("NEAR", `{"jsonrpc":"2.0","id":1,"method":"block","params":{"block_id":17}}`),
+		j("NEAR", `{"jsonrpc":"2.0","id":1,"method":"block","params":[990]}`),
+		j("NEAR", `{"jsonrpc":"2.0","id":1,"method":"query","params":{"request_type":"view_account","block_id":5,"account_id":"a.near"}}`),
+		j("SOLANA", `{"jsonrpc":"2.0","id":1,"method":"getBlock","params":[5,{"encoding":"json","maxSupportedTransactionVersion":0}]}`),
+		j("SOLANA", `{"jsonrpc":"2.0","id":1,"method":"getBalance","params":["83astBRguLMdt2h5U1Tpdq5tjFoJ6noeGwaY3mDLVcri",{"commitment":"finalized"}]}`),
+		j("STRK", `{"jsonrpc":"2.0","id":1,"method":"starknet_getBlockWithTxs","params":{"block_id":{"block_number":5}}}`),
+		j("STRK", `{"jsonrpc":"2.0","id":1,"method":"starknet_getBlockWithTxs","params":["latest"]}`),
 		// --- Tendermint RPC, JSON and URI (LAV1, COSMOSHUB)
 		tj("LAV1", `{"jsonrpc":"2.0","id":1,"method":"status","params":[]}`),
 		tj("LAV1", `{"jsonrpc":"2.0","id":1,"method":"block","params":{"height":"5"}}`),
@@ -855,14 +1039,31 @@ func corpus() []corpusItem {
 // the check
 
 type bounds struct {
-	rawLen     int // raw JSON token sequences up to this length (JSON-RPC, Tendermint JSON)
-	frameLen   int // framed params sequences
-	urlLen     int // URL token sequences (Tendermint URI)
-	restLen    int // URL token sequences on the REST parser (regex matching: slow)
-	grpcLen    int
-	double     bool // 2-token mutations
-	doubleRest bool
-	deadline   time.Duration
+	rawLen   int // raw JSON token sequences up to this length (JSON-RPC, Tendermint JSON)
+	frameLen int // framed params sequences
+	urlLen   int // URL token sequences (Tendermint URI)
+	restLen  int // URL token sequences on the REST parser (regex matching per api: milliseconds per parse)
+	grpcLen  int
+	// 2-token mutations: requests with at most fullTok tokens use the full alphabet, those with at most
+	// smallTok tokens the reduced one, longer ones only 1-token mutations; REST: reduced alphabet or none
+	fullTok, smallTok int
+	restDouble        bool
+	deadline          time.Duration
+}
+
+func (b bounds) alpha2(kind string, ntok int, full, small []string) []string {
+	switch {
+	case kind == spectypes.APIInterfaceRest:
+		if b.restDouble {
+			return small
+		}
+		return nil
+	case ntok <= b.fullTok:
+		return full
+	case ntok <= b.smallTok:
+		return small
+	}
+	return nil
 }
 
 func buildFamilies(b bounds, tg func(kind, spec string) *target) []*family {
@@ -935,25 +1136,19 @@ func buildFamilies(b bounds, tg func(kind, spec string) *target) []*family {
 			if c.kind != "jsonrpc" {
 				alpha = tmAlpha
 			}
-			double := b.double
-			if c.kind == "rest" {
-				double = b.doubleRest
-			}
-			fams = append(fams, mutFamilies(name, t, tokenizeJSON(c.data), alpha, "[", "]", func(s string) input {
+			toks := tokenizeJSON(c.data)
+			fams = append(fams, mutFamilies(name, t, toks, alpha, b.alpha2(c.kind, len(toks), alpha, jsonAlphabetSmall), "[", "]", func(s string) input {
 				return input{url: c.url, data: []byte(s), conn: c.conn, meta: c.meta}
-			}, double)...)
+			})...)
 		case "url":
-			double := b.double
-			if c.kind == "rest" {
-				double = b.doubleRest
-			}
-			fams = append(fams, mutFamilies(name, t, tokenizeURL(c.url), urlAlphabet, "/", "/..", func(s string) input {
+			toks := tokenizeURL(c.url)
+			fams = append(fams, mutFamilies(name, t, toks, urlAlphabet, b.alpha2(c.kind, len(toks), urlAlphabet, urlAlphabetSmall), "/", "/..", func(s string) input {
 				return input{url: s, data: []byte(c.data), conn: c.conn, meta: c.meta}
-			}, double)...)
+			})...)
 		case "data-bytes":
-			fams = append(fams, mutFamilies(name, t, bytesToToks([]byte(c.data)), byteAlphabet, "\x0a\x7f", "", func(s string) input {
+			fams = append(fams, mutFamilies(name, t, bytesToToks([]byte(c.data)), byteAlphabet, byteAlphabet, "\x0a\x7f", "", func(s string) input {
 				return input{url: c.url, data: []byte(s), conn: c.conn, meta: c.meta}
-			}, true)...)
+			})...)
 		}
 		// header value mutations for the items that carry a header
 		if len(c.meta) > 0 {
@@ -969,12 +1164,12 @@ func buildFamilies(b bounds, tg func(kind, spec string) *target) []*family {
 
 func run(run *ev.Run) {
 	quiet()
-	b := bounds{rawLen: 5, frameLen: 4, urlLen: 4, restLen: 3, grpcLen: 3, double: true, doubleRest: false, deadline: 75 * time.Second}
+	b := bounds{rawLen: 5, frameLen: 4, urlLen: 4, restLen: 2, grpcLen: 3, fullTok: 0, smallTok: 40, restDouble: false, deadline: 75 * time.Second}
 	if ev.Tier() == "thorough" {
-		b = bounds{rawLen: 6, frameLen: 5, urlLen: 5, restLen: 4, grpcLen: 4, double: true, doubleRest: true, deadline: 17 * time.Minute}
+		b = bounds{rawLen: 6, frameLen: 5, urlLen: 5, restLen: 3, grpcLen: 4, fullTok: 40, smallTok: 1000, restDouble: true, deadline: 17 * time.Minute}
 	}
 	if v := os.Getenv("C38_SMALL"); v != "" { // development aid
-		b = bounds{rawLen: 3, frameLen: 2, urlLen: 2, restLen: 2, grpcLen: 2, double: false, deadline: 60 * time.Second}
+		b = bounds{rawLen: 3, frameLen: 2, urlLen: 2, restLen: 1, grpcLen: 2, deadline: 60 * time.Second}
 	}
 	start := time.Now()
 	targets := map[string]*target{}
@@ -1012,7 +1207,7 @@ func run(run *ev.Run) {
 	for _, c := range corpus() {
 		t := tg(c.kind, c.spec)
 		before := guard.compared
-		evaluate(t, input{url: c.url, data: []byte(c.data), conn: c.conn, meta: c.meta}, guard)
+		evaluate(t, input{url: c.url, data: []byte(c.data), conn: c.conn, meta: c.meta}, wideModes(t.kind), guard)
 		if guard.compared == before && len(guard.viol) == 0 {
 			run.Violate(ev.Violation{Key: "harness:corpus-item-rejected", What: fmt.Sprintf("corpus request is not accepted by %s: url=%q data=%q", t.id, c.url, c.data)})
 		}
@@ -1022,8 +1217,25 @@ func run(run *ev.Run) {
 		total += f.n
 	}
 	setup := time.Since(start)
+	if os.Getenv("C38_DRY") != "" {
+		cls := map[string]int64{}
+		for _, f := range fams {
+			cls[famClass(f.name)] += f.n
+		}
+		keys := []string{}
+		for k := range cls {
+			keys = append(keys, k)
+		}
+		sort.Strings(keys)
+		for _, k := range keys {
+			fmt.Printf("%12d %s\n", cls[k], k)
+		}
+		fmt.Println("total", total)
+		os.Exit(0)
+	}
 	st, exhaustive, suspects := runFamilies(fams, start.Add(b.deadline))
 	st.merge(guard)
+	run.Set("enumeration_s", time.Since(start).Seconds()-setup.Seconds())
 
 	// hang suspects: must reproduce 5 times, each in a fresh goroutine with the generous watchdog
 	for _, sp := range suspects {
@@ -1031,7 +1243,7 @@ func run(run *ev.Run) {
 		hung := 0
 		for k := 0; k < timeoutRetry; k++ {
 			done := make(chan struct{})
-			go func() { evaluate(sp.f.t, in, newStats()); close(done) }()
+			go func() { evaluate(sp.f.t, in, sp.f.lat(), newStats()); close(done) }()
 			select {
 			case <-done:
 			case <-time.After(watchdog):
@@ -1073,12 +1285,23 @@ func run(run *ev.Run) {
 	run.Set("families", famNames)
 	run.Set("per_target", perT)
 	run.Set("hang_suspects", int64(len(suspects)))
+	amb := []string{}
+	for k := range st.restAmbiguous {
+		amb = append(amb, k)
+	}
+	sort.Strings(amb)
+	run.Set("rest_ambiguous_pattern_sets", amb)
+	run.Set("rest_ambiguity_observed_as_disagreement", st.restObserved)
+	var ru syscall.Rusage
+	if syscall.Getrusage(syscall.RUSAGE_SELF, &ru) == nil {
+		run.Set("cpu_s", float64(ru.Utime.Sec+ru.Stime.Sec))
+	}
 	run.Set("setup_s", setup.Seconds())
-	run.Set("bound", fmt.Sprintf("raw JSON token sequences len<=%d (|alphabet|=%d), framed params sequences len<=%d for 7 JSON-RPC and 4 Tendermint frames, URI token sequences len<=%d, REST url sequences len<=%d (|alphabet|=%d), gRPC body/method sequences len<=%d, 1-token%s mutations of %d corpus requests (nest depth %d), consumer latest block %v, provider with all add-ons and extensions", b.rawLen, len(jsonAlphabetBase)+1, b.frameLen, b.urlLen, b.restLen, len(urlAlphabet), b.grpcLen, map[bool]string{true: " and 2-token", false: ""}[b.double], len(corpus()), nestDepth, []uint64{1000}))
+	run.Set("bound", fmt.Sprintf("raw JSON token sequences len<=%d (|alphabet|=%d), framed params sequences len<=%d for 7 JSON-RPC and 4 Tendermint frames, URI token sequences len<=%d (|alphabet|=%d), REST url sequences len<=%d, gRPC body/method sequences len<=%d; all 1-token mutations (delete, duplicate, nest %d deep, replace by each alphabet token) of %d corpus requests with consumer latest block in %v x {rule-based, +archive directive, none directive}; all 2-token mutations with the full alphabet for requests of <=%d tokens, with an 8-token alphabet for <=%d tokens (REST: %v), consumer latest block %v; header name/value grid; provider with all add-ons and extensions", b.rawLen, len(jsonAlphabetBase)+1, b.frameLen, b.urlLen, len(urlAlphabet), b.restLen, b.grpcLen, nestDepth, len(corpus()), latestWide, b.fullTok, b.smallTok, b.restDouble, modeDefault))
 	for _, s := range st.samples {
 		run.Sample(s)
 	}
-	run.Assume("parsers are built from the checked-in specs ETH1, LAV1 and COSMOSHUB with a policy that allows every add-on and extension of the spec on both sides; gRPC descriptors come from the repository's local reflection mock (CreateChainLibMocks)")
+	run.Assume("parsers are built from the checked-in specs ETH1, NEAR, SOLANA, STRK (mainnet-1), COSMOSHUB and LAV1 (testnet-2) with a policy that allows every add-on and extension of the spec on both sides; gRPC descriptors come from the repository's local reflection mock (CreateChainLibMocks)")
 	run.Assume("the provider-side parse receives exactly what the consumer puts into RelayPrivateData: url, data, connection type, the headers kept by the consumer parse and the names of the extensions it chose")
 }
 
